@@ -126,6 +126,40 @@ def run(F, rep):
     rep.check(okb and len(sig) == 2 and len(ex) == 1 and conj, 'C16.G1', 'isCellMLReal|parts', real.where(),
               'e-notation handling changed: %s; significand tests %d, exponent tests %d, conjunction %s' % (det, len(sig), len(ex), conj),
               'at most one e/E; significand is a basic real AND exponent is a CellML integer')
+    # every positive verdict of isCellMLReal is made of the parts of the real grammar: a value returned (or assigned to the local that is returned) is `false` or an
+    # expression whose only recogniser calls are isCellMLBasicReal / isCellMLExponent; a shortcut through another recogniser (isCellMLInteger accepts "+5") or a bare `true` is not
+    verdict_exprs = []
+    ret_locals = set()
+    for r in real.walk():
+        if r.get('k') == 'Return' and r.get('c') and real.enclosing_lambda(r) is None:
+            e_ = r['c'][0]
+            while e_.get('k') in ('Paren', 'Cast') and len(e_.get('c', [])) == 1:
+                e_ = e_['c'][0]
+            if e_.get('k') == 'Ref' and e_.get('dk') == 'local':
+                ret_locals.add(e_['d'])
+            else:
+                verdict_exprs.append((r, e_))
+    for a_ in real.walk():
+        c_ = a_.get('c', [])
+        if a_.get('k') == 'Var' and a_.get('d') in ret_locals and c_:
+            verdict_exprs.append((a_, c_[0]))
+        elif a_.get('k') == 'Bin' and a_.get('op') == '=' and c_ and c_[0].get('k') == 'Ref' and c_[0].get('d') in ret_locals:
+            verdict_exprs.append((a_, c_[1]))
+    if not verdict_exprs:
+        raise AnalysisBroken('isCellMLReal: no verdict expression found')
+    for k_, (site, e_) in enumerate(verdict_exprs):
+        e2 = e_
+        while e2.get('k') in ('Paren', 'Cast') and len(e2.get('c', [])) == 1:
+            e2 = e2['c'][0]
+        if e2.get('k') == 'Bool' and not e2.get('v'):
+            continue
+        recs = {x.get('fn') for x in walk(e2) if x.get('k') == 'Call' and (x.get('fn') or '').startswith(('isCellML', 'isNonNegative', 'isEuropean'))}
+        if e2.get('k') == 'Bool' and e2.get('v'):
+            # a bare `true` takes its meaning from the recogniser tests known to hold where it is given
+            recs = {x.get('fn') for c3, t3 in (ff(real).conds_at(site) or []) if t3 for x in walk(c3) if x.get('k') == 'Call' and (x.get('fn') or '').startswith(('isCellML', 'isNonNegative', 'isEuropean'))}
+        rep.check(bool(recs) and recs <= {'isCellMLBasicReal', 'isCellMLExponent'}, 'C16.G1', 'isCellMLReal|verdict#%d from the grammar parts' % k_, real.where(site),
+                  'isCellMLReal can answer `%s`: a positive verdict that does not come from isCellMLBasicReal / isCellMLExponent (recognisers used: %s) - e.g. isCellMLInteger also accepts a leading "+", which a real may not have' % (render(e2)[:50], sorted(recs) or 'none'),
+                  'built from isCellMLBasicReal / isCellMLExponent')
     rr = [render(r['c'][0]) for r in expo.walk() if r.get('k') == 'Return' and r.get('c')]
     rep.check(rr == ['isCellMLInteger(candidate)'], 'C16.G1', 'isCellMLExponent|integer', expo.where(), 'isCellMLExponent returns %s' % rr, 'exponent = CellML integer')
     # the significand/exponent are split at the marker: substr(0, ePos) and substr(ePos + 1)
